@@ -209,7 +209,7 @@ class Gen:
             d["due"] = rng.choice([3, 5, 8, self.H(), self.H() + 2, 0, 1])
             d["deadline"] = rng.random() < 0.6
         if rng.random() < 0.3:
-            d["work"] = rng.choice([0, 1, 3, 6, 10])
+            d["work"] = rng.choice([0, 1, 3, 6, 10, 5, 7])
         if rng.random() < 0.4:
             d["prio"] = rng.choice([0, 1, 2, 5])
         if d.get("due") is not None and not d.get("deadline") and rng.random() < 0.5:
@@ -224,7 +224,7 @@ class Gen:
         self.nw += 1
         cost = rng.choice([("const", 0), ("const", 0), ("const", 1), ("const", 5), ("linear", 2, 3), ("linear", 0, 4)] +
                           ([] if self.simple else [("poly", [1, 0, 2])]))
-        self.emit({"op": "worker", "name": f"W{self.nw}", "prod": rng.choice([1, 1, 1, 0, 2, 3]), "cost": cost})
+        self.emit({"op": "worker", "name": f"W{self.nw}", "prod": rng.choice([1, 1, 1, 0, 2, 3, 2, 4, 6]), "cost": cost})
 
     def g_cumulative(self):
         rng = self.rng
